@@ -58,6 +58,10 @@ SPack        == More /\ E.a = "Pack" /\ Pack(KTid(E.T)) /\ Adv([E EXCEPT !.T = K
 SStep == \/ SCreateBlob \/ SRewrite \/ SAppend \/ SConsumeFile \/ SModifyP \/ SSavepoint \/ SRollback \/ SAbortTxn
          \/ STpcBegin \/ SStoreOK \/ SStoreFail \/ SUStoreOK \/ SUStoreFail \/ SVote \/ SFinish \/ SConnAbort
          \/ STpcAbort \/ SOtherCommit \/ SUBegin \/ SPack
-SSkip == More /\ ~ENABLED SStep /\ Adv([a |-> "Skip"]) /\ UNCHANGED vars
+\* (the enabling condition of Pack is written out: ENABLED would evaluate the packer a second time)
+PackEnabled(T) == Idle /\ IsClean(con) /\ T \in 1..clk
+SSkip == /\ More
+         /\ IF E.a = "Pack" THEN ~PackEnabled(KTid(E.T)) ELSE ~ENABLED SStep
+         /\ Adv([a |-> "Skip"]) /\ UNCHANGED vars
 SNext == SStep \/ SSkip
 =============================================================================
